@@ -229,6 +229,14 @@ struct dom_u8x8 {
     static constexpr std::size_t size = 65536;
     static constexpr auto arg(std::size_t i) -> Args { return Args{{i & 255U, i >> 8U, 0}}; }
 };
+// quick tier: every first operand against 64 second operands chosen at the boundaries (the thorough tier runs all pairs)
+inline constexpr unsigned char kSecond[64] = {0, 1, 2, 3, 4, 5, 6, 7, 8, 9, 10, 12, 15, 16, 17, 24, 31, 32, 33, 48, 63, 64, 65, 96, 100, 101, 120, 125, 126, 127, 128, 129,
+    130, 131, 135, 144, 156, 160, 191, 192, 193, 200, 223, 224, 225, 231, 239, 240, 241, 245, 246, 247, 248, 249, 250, 251, 252, 253, 254, 255, 77, 85, 170, 204};
+struct dom_u8x8q {
+    static constexpr char const* name = "all 8-bit values x 64 boundary 8-bit values";
+    static constexpr std::size_t size = 256 * 64;
+    static constexpr auto arg(std::size_t i) -> Args { return Args{{i & 255U, kSecond[i >> 8U], 0}}; }
+};
 struct dom_cctype {
     static constexpr char const* name = "EOF and all unsigned char values";
     static constexpr std::size_t size = 257;
@@ -513,7 +521,7 @@ C13_CMATH(f32, float)
 #endif
 
 // ================================================================== 8-bit exhaustive: cctype, bit, numeric
-#if defined(C13_PART_INT8) || defined(C13_PART_INTW)
+#if defined(C13_PART_INT8) || defined(C13_PART_NUM8) || defined(C13_PART_W1632) || defined(C13_PART_W64)
 template <typename T>
 constexpr auto ref_gcd(T a, T b) -> T { return b == 0 ? a : ref_gcd<T>(b, a % b); }
 // lcm(|m|,|n|) representable in T  (and |m|, |n| representable)
@@ -587,7 +595,7 @@ constexpr auto not_min(T v) -> bool
         C13_FN1(abs_##S, "abs." #S, "numeric", T, not_min(x), kNoTag, etl::abs<T>(x))
     #define C13_SATCAST(SF, F, ST, T) C13_FN1(sat_##SF##_##ST, "saturate_cast." #SF "_" #ST, "numeric", F, true, kNoTag, etl::saturate_cast<T>(x))
 #endif
-#if defined(C13_PART_INT8)
+#if defined(C13_PART_INT8) || defined(C13_PART_NUM8)
     #define C13_CCTYPE(F) C13_FN1(F, #F, "cctype", Ch, true, kNoTag, etl::F(x))
 C13_CCTYPE(isalnum)
 C13_CCTYPE(isalpha)
@@ -612,7 +620,7 @@ C13_SATCAST(u8, std::uint8_t, i8, std::int8_t)
 #endif
 
 // ================================================================== 16/32/64-bit integers, bit_cast
-#if defined(C13_PART_INTW)
+#if defined(C13_PART_W1632) || defined(C13_PART_W64)
 C13_BITS(u16, std::uint16_t)
 C13_BITS(u32, std::uint32_t)
 C13_BITS(u64, std::uint64_t)
@@ -765,7 +773,9 @@ constexpr auto static_vector(u64 seed) -> u64
     return h.h;
 }
 
-constexpr auto inplace_string(u64 seed) -> u64
+// probe == true: do not run the history to the end, only report (1) whether it contains an erase of the whole string
+// (exclusion class "string.erase.whole": a precondition rejects that valid call on the pinned tree, C04 / patch 17)
+constexpr auto inplace_string_impl(u64 seed, bool probe) -> u64
 {
     using S = etl::inplace_string<12>;
     constexpr char alpha[] = {'a', 'b', 'c', static_cast<char>(0xe9)};
@@ -788,23 +798,39 @@ constexpr auto inplace_string(u64 seed) -> u64
         case 2:
             if (!s.empty()) { s.pop_back(); }
             break;
-        case 3: s.append(r.below(s.capacity() - s.size() + 1), ch()); break;
+        case 3: {
+            auto const n = r.below(s.capacity() - s.size() + 1); // (argument evaluation order is unspecified: draw first)
+            s.append(n, ch());
+            break;
+        }
         case 4: {
             char buf[4] = {ch(), ch(), ch(), '\0'};
             buf[r.below(4)] = '\0';
             if (s.size() + 3 <= s.capacity()) { s.append(buf); }
             break;
         }
-        case 5: s.insert(r.below(s.size() + 1), r.below(s.capacity() - s.size() + 1), ch()); break;
+        case 5: {
+            auto const i = r.below(s.size() + 1);
+            auto const n = r.below(s.capacity() - s.size() + 1);
+            s.insert(i, n, ch());
+            break;
+        }
         case 6:
             if (!s.empty()) {
                 auto const i = r.below(s.size());
-                s.erase(i, r.below(s.size() - i) + 1);
+                auto const n = r.below(s.size() - i) + 1;
+                if (probe && n == s.size()) { return 1; }
+                s.erase(i, n);
             }
             break;
-        case 7: h.add(s.find(ch(), r.below(s.size() + 1))); break;
+        case 7: {
+            auto const c = ch();
+            h.add(s.find(c, r.below(s.size() + 1)));
+            break;
+        }
         case 8: {
-            S t{r.below(3) + 1, ch()};
+            auto const tn = r.below(3) + 1;
+            S t(tn, ch());
             h.add(s.find(t));
             h.add(s.compare(t) < 0);
             h.add(s.compare(t) > 0);
@@ -822,14 +848,22 @@ constexpr auto inplace_string(u64 seed) -> u64
             for (auto c : t) { h.add(static_cast<unsigned char>(c)); }
             break;
         }
-        case 10: h.add(s.find_first_of(ch())); h.add(s.find_first_not_of(ch())); break;
-        case 11: s.assign(r.below(s.capacity() + 1), ch()); break;
+        case 10:
+            h.add(s.find_first_of(ch()));
+            h.add(s.find_first_not_of(ch()));
+            break;
+        case 11: {
+            auto const n = r.below(s.capacity() + 1);
+            s.assign(n, ch());
+            break;
+        }
         default: s.clear(); break;
         }
         snap();
     }
-    return h.h;
+    return probe ? 0 : h.h;
 }
+constexpr auto inplace_string(u64 seed) -> u64 { return inplace_string_impl(seed, false); }
 
 constexpr auto string_view(u64 seed) -> u64
 {
@@ -1015,13 +1049,17 @@ constexpr auto chrono(u64 seed) -> u64
     auto const ym = ec::year_month{ymd.year(), ymd.month()} + ec::months{dm};
     h.add(int{ym.year()});
     h.add(unsigned{ym.month()});
-    auto const wd = ec::weekday{static_cast<unsigned>(r.below(7))} + ec::days{static_cast<int>(r.below(41)) - 20};
+    auto const w0 = static_cast<unsigned>(r.below(7));
+    auto const wn = static_cast<int>(r.below(41)) - 20;
+    auto const wd = ec::weekday{w0} + ec::days{wn};
     h.add(wd.c_encoding());
     auto const last = ec::year_month_day_last{ymd.year(), ec::month_day_last{ymd.month()}};
     h.add(unsigned{last.day()});
     h.add(ymd.year().is_leap());
     // durations: count in ms, the rounding casts to seconds / minutes (exactly specified, ties to even for round)
-    auto const ms = ec::milliseconds{static_cast<long long>(r.below(2000001)) - 1000000 + (r.below(4) == 0 ? 500 - static_cast<long long>(r.below(2000001) % 1000) : 0)};
+    auto const m0  = static_cast<long long>(r.below(2000001)) - 1000000;
+    auto const tie = r.below(4) == 0; // every fourth scenario: an exact .5 s tie for round<seconds>
+    auto const ms  = ec::milliseconds{tie ? (m0 / 1000) * 1000 + 500 : m0};
     h.add(ec::duration_cast<ec::seconds>(ms).count());
     h.add(ec::floor<ec::seconds>(ms).count());
     h.add(ec::ceil<ec::seconds>(ms).count());
@@ -1048,8 +1086,8 @@ constexpr auto array_bitset(u64 seed) -> u64
         case 1: b.reset(pos); break;
         case 2: b.flip(pos); break;
         case 3: b.set(pos, r.below(2) != 0); break;
-        case 4: b <<= pos; break;
-        case 5: b >>= pos; break;
+        case 4: b = ~b; break;
+        case 5: b = (b & c) | (b ^ c); break;
         case 6: b &= c; break;
         case 7: b |= c; break;
         case 8: b ^= c; break;
@@ -1069,7 +1107,7 @@ constexpr auto array_bitset(u64 seed) -> u64
 } // namespace scen
     #define C13_SCEN(F) C13_FN1(scen_##F, "scenario." #F, "scenario", Seed, true, kNoTag, scen::F(x))
 C13_SCEN(static_vector)
-C13_SCEN(inplace_string)
+C13_FN1(scen_inplace_string, "scenario.inplace_string", "scenario", Seed, true, (scen::inplace_string_impl(x, true) == 1 ? "string.erase.whole" : kNoTag), scen::inplace_string(x))
 C13_SCEN(string_view)
 C13_SCEN(charconv)
 C13_SCEN(algorithm)
@@ -1086,14 +1124,18 @@ C13_SCEN(array_bitset)
     #include "C13_gen_cm32.hpp"
 #elif defined(C13_PART_INT8)
     #include "C13_gen_int8.hpp"
-#elif defined(C13_PART_INTW)
-    #include "C13_gen_intw.hpp"
+#elif defined(C13_PART_NUM8)
+    #include "C13_gen_num8.hpp"
+#elif defined(C13_PART_W1632)
+    #include "C13_gen_w1632.hpp"
+#elif defined(C13_PART_W64)
+    #include "C13_gen_w64.hpp"
 #elif defined(C13_PART_CSTR)
     #include "C13_gen_cstr.hpp"
 #elif defined(C13_PART_SCEN)
     #include "C13_gen_scen.hpp"
 #else
-    #error "compile with -DC13_PART_<CM64|CM32|INT8|INTW|CSTR|SCEN>"
+    #error "compile with -DC13_PART_<CM64|CM32|INT8|NUM8|W1632|W64|CSTR|SCEN>"
 #endif
 
 namespace c13 {
